@@ -58,6 +58,7 @@ type C11Mutator struct {
 	Rounds   int    `json:"rounds,omitempty"`  // patch: the request is repeated Rounds times back to back (0/1 = once)
 	Cond     *PCond `json:"cond,omitempty"`
 	ExpSec   int    `json:"exp_sec,omitempty"`   // patch: Meta.SetExpiredAt, set: ExpiredAt (seconds relative; 0 = untouched)
+	CreSec   int    `json:"cre_sec,omitempty"`   // set: CreatedAt (seconds relative; 0 = untouched)
 	ClearExp bool   `json:"clear_exp,omitempty"` // patch: Meta.ClearExpiredAt — the record never expires from then on
 	Body     Body   `json:"body,omitempty"`      // set
 	DelayUs  int    `json:"delay_us,omitempty"`
@@ -288,6 +289,7 @@ func genC11(mode c11Mode, open c11Open) func(t *rapid.T) C11Scenario {
 	// forced schedules of repaired findings are regression inputs of the main generator
 	var forced []func(*rapid.T) C11Scenario
 	forced = append(forced, genC11EmptyCand) // fixed adbe0da
+	forced = append(forced, genC11WindowGap) // never a finding on HEAD: the window is re-checked under the lock
 	if !open.nonAtomic {
 		forced = append(forced, genC11NonAtomic)
 	}
@@ -536,6 +538,9 @@ func genC11(mode c11Mode, open c11Open) func(t *rapid.T) C11Scenario {
 				m.Body = genBody(t)
 				if expOK && rapid.Bool().Draw(t, "sexp") {
 					m.ExpSec = genExpSec(t, "sexpv")
+				}
+				if rapid.IntRange(0, 3).Draw(t, "scre") == 0 {
+					m.CreSec = -rapid.IntRange(100, 9000).Draw(t, "screv") // moves the record inside the CREATION_TIME index
 				}
 			case "delete":
 				conc := !((open.deadlock || (strict && open.nonAtomic)) && hasShift) && !(strict && open.resave && hasPE)
@@ -793,7 +798,7 @@ func runC11Inner(s C11Scenario) pbt.Outcome {
 					cur.ret = since()
 				}
 			case "set":
-				kv := &hydrapb.KeyValuePair{Key: keyOf(m.Keys[0]), BytesVal: wrapBody(encodeBody(m.Body)), ExpiredAt: nanosToTS(abs(m.ExpSec))}
+				kv := &hydrapb.KeyValuePair{Key: keyOf(m.Keys[0]), BytesVal: wrapBody(encodeBody(m.Body)), ExpiredAt: nanosToTS(abs(m.ExpSec)), CreatedAt: nanosToTS(abs(m.CreSec))}
 				resp, err := e.r.G.Set(e.ctx, &hydrapb.SetRequest{Swamps: []*hydrapb.SwampRequest{{IslandID: isl, SwampName: sn, KeyValues: []*hydrapb.KeyValuePair{kv}, Overwrite: true}}})
 				r.err, r.nilResp = err, resp == nil
 				if resp != nil && len(resp.Swamps) == 1 {
@@ -1181,7 +1186,7 @@ func judgeC11(s C11Scenario, init map[string]kstate, cres []claimRes, mres []mut
 			if len(r.keyst) != 1 {
 				return pbt.Failf("harness", "%s: unexpected Set response", who)
 			}
-			ev := &event{Actor: who, Call: r.call, Ret: r.ret, NewExp: abs(m.ExpSec)}
+			ev := &event{Actor: who, Call: r.call, Ret: r.ret, NewExp: abs(m.ExpSec), NewCre: abs(m.CreSec)}
 			if r.keyst[0].Status == hydrapb.Status_NOT_FOUND {
 				ev.Kind = evSetMiss
 			} else {
